@@ -6,6 +6,7 @@ import (
 	"os"
 	"path/filepath"
 	"reflect"
+	"runtime/debug"
 	"sort"
 	"strings"
 	"sync"
@@ -160,7 +161,22 @@ func nonZero(v reflect.Value) bool {
 }
 
 // Setup loads the tree in-process with the real Executor.
-func Setup(dir string) (*task.Executor, error) {
+func Setup(dir string) (e *task.Executor, err error) {
+	defer func() {
+		// the code under test runs in this process: a panic in it is an observation, not the end of the check
+		if r := recover(); r != nil {
+			err = &PanicError{Value: fmt.Sprint(r), Stack: string(debug.Stack())}
+		}
+	}()
+	return setup(dir)
+}
+
+// PanicError is a panic of the code under test during Setup.
+type PanicError struct{ Value, Stack string }
+
+func (p *PanicError) Error() string { return "panic: " + p.Value }
+
+func setup(dir string) (*task.Executor, error) {
 	var so, se bytes.Buffer
 	e := task.NewExecutor()
 	e.Dir = dir
